@@ -31,7 +31,7 @@ IDS = ["temp", "temp-1", "temp_1", "sea.water temp", "1stream", "salinité", "a/
        "salt [psu]", "o2?", "chl*", "[ab]"]
 # stream ids are literal strings: characters that mean something to fnmatch / regular expressions select nothing else
 LOOKALIKES = [["salt [psu]", "salt p", "salt s"], ["temp*", "temp_raw", "temperature"], ["o2?", "o2x", "o2"], ["v.1", "vx1", "v11"],
-              ["a|b", "a", "b"], ["(x)", "x", "((x))"]]
+              ["a|b", "a", "b"], ["(x)", "x", "((x))"], ["temp ", "temp", " temp"], ["Temp", "temp", "TEMP"], ["v\t1", "v1", "v 1"]]
 
 
 def sanitize(s):
@@ -43,7 +43,8 @@ def name_ok(col, sid, module, test):
     if not NAME_RE.match(col):
         return False
     # a short prefix is how a name is kept from starting with a digit; the statement does not fix it
-    return col == want or (col.endswith(want) and len(col) - len(want) <= 8)
+    # (only a name that would otherwise start with a digit or an underscore gets one; "_temp_..." is not a spelling of "temp_...")
+    return col == want or ((want[:1].isdigit() or want[:1] == "_") and col.endswith(want) and len(col) - len(want) <= 8)
 
 
 def run(ctx) -> None:
